@@ -8,6 +8,7 @@ package main
 
 import (
 	"fmt"
+	"go/token"
 	"sort"
 	"strings"
 
@@ -578,4 +579,72 @@ func derivesFromParam(v ssa.Value, prm *ssa.Parameter, depth int, seen map[ssa.V
 		}
 	}
 	return false
+}
+
+// PAT8: message type compatibility of the supplied value is decided by
+// descriptor identity, never by comparing (short) type names of two messages.
+func rulePAT8(p *Program) *RuleResult {
+	r := newResult("PAT8")
+	isDescCall := func(v ssa.Value, meth string) bool {
+		c, ok := v.(*ssa.Call)
+		return ok && c.Common().IsInvoke() && c.Common().Method.Name() == meth
+	}
+	fromDescriptorName := func(v ssa.Value) bool {
+		v = stripConv(v)
+		if isDescCall(v, "Name") || isDescCall(v, "FullName") {
+			c := v.(*ssa.Call)
+			return strings.Contains(typeShort(c.Common().Value.Type()), "Descriptor")
+		}
+		return false
+	}
+	identityIn := func(fn *ssa.Function) int {
+		n := 0
+		for _, b := range fn.Blocks {
+			for _, ins := range b.Instrs {
+				if bo, ok := ins.(*ssa.BinOp); ok && (bo.Op == token.EQL || bo.Op == token.NEQ) {
+					if isDescCall(bo.X, "Descriptor") && isDescCall(bo.Y, "Descriptor") {
+						n++
+					}
+				}
+			}
+		}
+		return n
+	}
+	for _, fn := range patchFunctions(p) {
+		for _, b := range fn.Blocks {
+			for _, ins := range b.Instrs {
+				if bo, ok := ins.(*ssa.BinOp); ok && (bo.Op == token.EQL || bo.Op == token.NEQ) {
+					if fromDescriptorName(bo.X) && fromDescriptorName(bo.Y) {
+						r.bad(short(fn)+"|name-vs-name", "two messages' descriptor names are compared in "+short(fn), p.instrPos(ins),
+							"nested messages of different resources share short names (Patient.Contact / Organization.Contact): a wrongly typed value passes and protoreflect panics on Set/Append")
+					}
+				}
+			}
+		}
+	}
+	for _, name := range []string{"Add", "Insert", "tryReplace", "newSetOneof"} {
+		fn, err := p.Method("fhirpath/patch", "Expression", name)
+		if err != nil {
+			return r.anchorFail(err)
+		}
+		r.count("operations", 1)
+		n := identityIn(fn)
+		for _, b := range fn.Blocks {
+			for _, ins := range b.Instrs {
+				if c, ok := ins.(*ssa.Call); ok {
+					if sc := c.Common().StaticCallee(); sc != nil && inRepoFn(sc) && strings.HasSuffix(fnPkgPath(sc), "/fhirpath/patch") && sc.Name() != "newSetOneof" && sc.Name() != "evaluate" {
+						n += identityIn(sc)
+					}
+				}
+			}
+		}
+		key := short(fn) + "|descriptor identity"
+		if n > 0 {
+			r.ok(key, fmt.Sprintf("%s compares message descriptors by identity (%d comparison(s))", short(fn), n), p.pos(fn.Pos()), "BinOp on two Descriptor() results", true)
+		} else {
+			r.bad(key, short(fn)+" has no descriptor-identity comparison between the target element type and the value", p.pos(fn.Pos()), "a wrongly typed value is not rejected before the mutating call (protoreflect panics on a type mismatch)")
+		}
+	}
+	r.floor("operations", 4)
+	return r
 }
